@@ -589,3 +589,18 @@ Proof.
   - intros o Ho. destruct (FREE o Ho) as [FN _]. unfold owner_of. rewrite FN. reflexivity.
   - intros o x y A B. congruence.
 Qed.
+
+(* each block CIDR (hence each address) is held by at most one entry of any reachable datastore *)
+Lemma reachable_one_block_per_cidr cf clients evs e1 e2 c b1 b2 :
+  let s := sy_store (@Cas.sys_run key value lopt key_eqb key_ltb lmatch (list (op * result)) (sys0 cf clients) evs) in
+  In e1 (st_ents s) -> In e2 (st_ents s) ->
+  e_key e1 = KBlock c -> e_val e1 = VBlock b1 -> e_key e2 = KBlock (bk_cidr b2) -> e_val e2 = VBlock b2 ->
+  bk_cidr b1 = bk_cidr b2 -> e1 = e2.
+Proof.
+  intros s H1 H2 K1 V1 K2 V2 EQ.
+  pose proof (reachable_blocks_wf cf clients evs e1 H1) as W1. rewrite K1, V1 in W1. destruct W1 as [_ C1].
+  eapply (@Cas.NoDup_keys_inj key value); eauto.
+  - apply (@Cas.sys_run_keys key value lopt key_eqb key_ltb lmatch key_eqb_eq (list (op * result))).
+    simpl. constructor.
+  - rewrite K1, K2. congruence.
+Qed.
